@@ -23,7 +23,7 @@ func c10Nest(rng *rand.Rand) string {
 		n := 1 + rng.Intn(3)
 		local := append([]string(nil), outer...)
 		for i := 0; i < n; i++ {
-			switch k := rng.Intn(12); {
+			switch k := rng.Intn(13); {
 			case k < 2 || depth == 0:
 				v := fresh("v")
 				fmt.Fprintf(&b, "%s%s := %d\n%sprint \"%s\" %s\n", ind, v, rng.Intn(9), ind, v, v)
@@ -72,10 +72,20 @@ func c10Nest(rng *rand.Rand) string {
 				fmt.Fprintf(&b, "%sfor %s := range %s\n%s    print \"f\" %s\n", ind, e, hdr, ind, e)
 				block(ind+"    ", depth-1, true, inFunc, local)
 				fmt.Fprintf(&b, "%send\n", ind)
+			case k == 9 && rng.Intn(2) == 0: // a loop that mutates the map it iterates over
+				m := fresh("mm")
+				e := fresh("e")
+				fmt.Fprintf(&b, "%s%s := {a:1 b:2 c:3 d:4}\n%sfor %s := range %s\n%s    print \"m\" %s (has %s %s)\n", ind, m, ind, e, m, ind, e, m, e)
+				muts := []string{"del M \"b\"", "del M \"c\"", "del M \"d\"", "M.x = 9", "M.y = 8", "M[E] = 7", "del M E", "M.b = 5", "del M \"a\""}
+				for j := 0; j < 1+rng.Intn(3); j++ {
+					mu := strings.ReplaceAll(strings.ReplaceAll(muts[rng.Intn(len(muts))], "M", m), "E", e)
+					fmt.Fprintf(&b, "%s    %s\n", ind, mu)
+				}
+				fmt.Fprintf(&b, "%send\n%sprint %s\n", ind, ind, m)
 			case k < 10 && inLoop && i == n-1:
 				fmt.Fprintf(&b, "%sprint \"break\"\n%sbreak\n", ind, ind)
 				return true
-			case k < 11 && inFunc && i == n-1:
+			case k < 12 && inFunc && i == n-1:
 				fmt.Fprintf(&b, "%sprint \"return\"\n%sreturn\n", ind, ind)
 				return true
 			default:
